@@ -51,6 +51,7 @@ def extract():
                         rhs = []
                     prods.append((rhs, mm.group(2), mn))
             nt = m.group(2) or name
+            prods.sort(key=lambda p: p[2])     # class dicts built from sets are hash-seed dependent
             nonterms[nt] = {'start': m.group(1) == 'start', 'prods': prods}
             classes[nt] = v
     starts = [n for n, v in nonterms.items() if v['start']]
